@@ -4,6 +4,7 @@ package main
 
 import (
 	"crypto/sha1"
+	"fmt"
 	"go/types"
 )
 
@@ -100,9 +101,43 @@ func (x *Exec) shaSum(in []*Term) []*Term {
 				}
 			}
 		}
+		if x.params["freeDigest"] == 0 {
+			// pseudo-digest: a fixed injective interpretation of the uninterpreted function. The digest of a symbolic input is a
+			// fresh constant, unless the input equals an earlier input (then that digest): functional consistency and collision
+			// freedom hold by construction and comparisons between digests fold to comparisons between inputs.
+			k := sha1.Sum([]byte(fmt.Sprintf("goitsym pseudo-digest #%d len %d", len(x.c.shaApps), len(in))))
+			for _, b := range k {
+				out = append(out, st.Const(8, uint64(b)))
+			}
+			for j := len(x.c.shaApps) - 1; j >= 0; j-- {
+				app := x.c.shaApps[j]
+				if len(app.in) != len(in) {
+					continue
+				}
+				inEq := st.True
+				for i := range in {
+					inEq = st.And(inEq, st.Eq(app.in[i], in[i]))
+					if inEq.IsFalse() {
+						break
+					}
+				}
+				if inEq.IsFalse() {
+					continue
+				}
+				for i := 0; i < 20; i++ {
+					out[i] = st.Ite(inEq, app.out[i], out[i])
+				}
+			}
+			x.c.shaApps = append(x.c.shaApps, shaApp{in: append([]*Term{}, in...), out: out})
+			return out
+		}
 		for i := 0; i < 20; i++ {
 			out = append(out, x.c.FreshVar("sha", 8, nil))
 		}
+	}
+	if x.params["freeDigest"] == 0 {
+		x.c.shaApps = append(x.c.shaApps, shaApp{in: append([]*Term{}, in...), out: out})
+		return out
 	}
 	// Ackermann-style axioms: functional consistency + collision freedom w.r.t. every earlier application
 	for _, app := range x.c.shaApps {
